@@ -138,7 +138,14 @@ fn enumerate(ctx: &Ctx) -> Box<dyn Iterator<Item = Case>> {
             for size in [exact, exact + 1, exact + 6] {
                 let mut img = sweep_image(false, 8, n, 0, size);
                 put16(&mut img, 32, cnt);
-                v.push(Case { hdr: false, kind: 8, img: Hex(img) });
+                v.push(Case { hdr: false, kind: 8, img: Hex(img.clone()) });
+                if cnt <= 12 {
+                    for bpp in [1u8, 2, 3, 4, 8] {
+                        let mut i2 = img.clone();
+                        i2[28] = bpp;
+                        v.push(Case { hdr: false, kind: 8, img: Hex(i2) });
+                    }
+                }
             }
         }
     }
@@ -146,6 +153,11 @@ fn enumerate(ctx: &Ctx) -> Box<dyn Iterator<Item = Case>> {
         let base = sweep_image(true, 1, n, 0, 8).len();
         for size in 0..=(base + 16) as u32 {
             v.push(Case { hdr: true, kind: 1, img: Hex(sweep_image(true, 1, n, (n & 1) as u32, size)) });
+            if size as usize >= base - 16 - 8 {
+                // same list with a zero id at the end / at both ends
+                v.push(Case { hdr: true, kind: 1, img: Hex(sweep_image(true, 1, n, 4 | (n & 1) as u32, size)) });
+                v.push(Case { hdr: true, kind: 1, img: Hex(sweep_image(true, 1, n, 12, size)) });
+            }
         }
     }
     Box::new(v.into_iter())
